@@ -406,10 +406,21 @@ struct PatCase {
 }
 
 #[derive(Serialize, Deserialize, Hash, Clone, Debug)]
-struct BindCase {
+struct ClassCase {
+    class: String,
+    /// 0 = `[[:c:]]`, 1 = `[![:c:]]`, 2 = `[^[:c:]]`
+    negation: u8,
+}
+
+#[derive(Serialize, Deserialize, Hash, Clone, Debug)]
+struct BindSpec {
     pattern: B,
     glob: bool,
     icase: bool,
+}
+#[derive(Serialize, Deserialize, Hash, Clone, Debug)]
+struct BindCase {
+    specs: Vec<BindSpec>,
 }
 
 static TRIPLES: AtomicU64 = AtomicU64::new(0);
@@ -418,6 +429,8 @@ static SHORTCUT_TRIPLES: AtomicU64 = AtomicU64::new(0);
 static VALIDATED: AtomicU64 = AtomicU64::new(0);
 static VALIDATED_MATCH: AtomicU64 = AtomicU64::new(0);
 static GIT_CALLS: AtomicU64 = AtomicU64::new(0);
+static DOC_DEVIATIONS: AtomicU64 = AtomicU64::new(0);
+static BOUND_SPECS: AtomicU64 = AtomicU64::new(0);
 
 fn features(p: &[u8]) -> String {
     let mut f = Vec::new();
@@ -452,7 +465,8 @@ pub fn run(run: &'static Run) {
          (so unterminated/odd brackets, escapes of every token head, *** runs arise); texts: every string of <=4 bytes over {a,b,/,A,.}; \
          modes: {none, NO_MATCH_SLASH_LITERAL, IGNORE_CASE, both}. Each (pattern,text,mode) triple is decided by gix_glob::wildmatch and by \
          Pattern::from_bytes_without_negation(pattern).matches() (the literal-prefix / ends-with shortcuts; oracle applied to Pattern.text) and \
-         compared with the transcription of git's dowild(). One case = one pattern (3124 triples). non-trivial = the pattern contains a glob \
+         compared with the transcription of git's dowild(). One case = one pattern (3124 triples). Sub-check classes: [[:c:]], [![:c:]], [^[:c:]] for the 12 POSIX \
+         classes (+ one unknown name) x every single-byte text 0x01..0xff x 4 modes, each also bound to git. non-trivial = the pattern contains a glob \
          special and, in some mode, matches at least one text and rejects at least one",
     );
     run.assume("oracle = Rust transcription of wildmatch.c:dowild() of git 2.39.5; bound to the git binary by sub-check git-bind");
@@ -462,111 +476,225 @@ pub fn run(run: &'static Run) {
          valid index paths and patterns without leading '/' or '//' (pathspec normalisation would rewrite/refuse them) and with >=1 glob special can be bound",
     );
     run.assume(
-        "excluded from the domain: IGNORE_CASE triples where the pattern has an upper-case letter inside a bracket expression or after a backslash. \
-         git folds only the first byte of a pattern token, so there `[A]`/`\\A` match neither `a` nor `A` (a git quirk); gitoxide folds the whole pattern by design",
+        "excluded from the domain (documented deviation; gix-pathspec's baseline fixture marks `:(icase)G[O][o]` and `:(glob,icase)g[o][O]` as `git-inconsistency`): \
+         under IGNORE_CASE git folds only the first byte of a pattern token, so an upper-case letter inside a bracket expression or after a backslash is compared \
+         unfolded with the folded text byte (`[A]`/`\\A` match neither `a` nor `A`); gitoxide folds the whole pattern. Disagreements are tolerated (and counted as \
+         documented_deviation_triples) only for such patterns in IGNORE_CASE modes; all other triples of those patterns are checked strictly",
     );
-    run.budget_secs(run.pick(40.0, 600.0));
+    run.budget_secs(run.pick(100.0, 900.0)); // designed for <=40 s / <=10 min on an idle 16-core box; headroom because the box is shared
     let texts = texts();
 
     // ---- bind the transcription to git ----
-    let f1 = vkit::scratch::Dir::new("c36f1");
-    let f2 = vkit::scratch::Dir::new("c36f2");
-    let mut names1: Vec<&[u8]> = Vec::new();
-    let mut names2: Vec<&[u8]> = Vec::new();
-    for t in texts.iter().filter(|t| valid_path(t)) {
-        if t.contains(&b'/') {
-            names2.push(t);
-        } else {
-            names1.push(t);
-        }
-    }
-    for (dir, names) in [(&f1, &names1), (&f2, &names2)] {
-        vkit::git::init(dir.path());
+    // One index holds, below each of BATCH directories d0..d63, every text that is a valid path: slash-less names at stage 1 and names
+    // with a slash at stage 2, so that file/directory conflicts between e.g. `a` and `a/b` do not arise (ls-files matches pathspecs
+    // against unmerged entries as well). One `git ls-files` run then decides BATCH pathspecs `[magic]d<i>/<pattern>` at once: the
+    // literal directory prefix tells from the output which pathspec listed a path.
+    const BATCH: usize = 64;
+    let t0 = std::time::Instant::now();
+    let fixture = vkit::scratch::Dir::new("c36fix");
+    let names: Vec<&[u8]> = texts.iter().filter(|t| valid_path(t)).map(|t| t.as_slice()).collect();
+    {
+        vkit::git::init(fixture.path());
         let mut input = Vec::new();
-        for n in names.iter() {
-            input.extend_from_slice(b"100644 e69de29bb2d1d6434b8b29ae775ad8c2e48c5391 0\t");
-            input.extend_from_slice(n);
-            input.push(0);
+        for d in 0..BATCH {
+            for n in names.iter() {
+                input.extend_from_slice(b"100644 e69de29bb2d1d6434b8b29ae775ad8c2e48c5391 ");
+                input.push(if n.contains(&b'/') { b'2' } else { b'1' });
+                input.extend_from_slice(format!("\td{d}/").as_bytes());
+                input.extend_from_slice(n);
+                input.push(0);
+            }
         }
-        vkit::git::git_in(dir.path(), &["update-index", "-z", "--index-info"], &input);
-        let listed = vkit::git::git(dir.path(), &["ls-files", "-z"]);
+        vkit::git::git_in(fixture.path(), &["update-index", "-z", "--index-info"], &input);
+        let listed = vkit::git::git(fixture.path(), &["ls-files", "-z"]);
         let n = listed.split(|c| *c == 0).filter(|s| !s.is_empty()).count();
-        if n != names.len() {
-            vkit::machinery!("index fixture holds {n} paths, expected {}", names.len());
+        if n != names.len() * BATCH {
+            vkit::machinery!("index fixture holds {n} paths, expected {}", names.len() * BATCH);
         }
     }
-    run.cov("bind_fixture_paths", names1.len() + names2.len());
+    run.cov("bind_fixture_paths", names.len());
 
     let bind_tokens = run.pick(3, 4);
     run.sub_with(
         "git-bind",
-        vkit::Opts::default().chunk(2048),
+        vkit::Opts::default().chunk(64),
         |emit| {
+            let mut batch = Vec::new();
             enumerate::strings(&PAT_TOKENS, 1, bind_tokens, |p| {
                 if p[0] == b'/' || p.find(b"//").is_some() || !p.iter().any(|c| is_glob_special(*c)) {
                     return;
                 }
                 for m in 0..4u8 {
-                    emit(BindCase { pattern: B(p.to_vec()), glob: m & 1 != 0, icase: m & 2 != 0 });
+                    batch.push(BindSpec { pattern: B(p.to_vec()), glob: m & 1 != 0, icase: m & 2 != 0 });
+                    if batch.len() == BATCH {
+                        emit(BindCase { specs: std::mem::take(&mut batch) });
+                    }
                 }
             });
+            if !batch.is_empty() {
+                emit(BindCase { specs: batch });
+            }
         },
         |c: &BindCase| -> Verdict {
-            let mut spec = Vec::new();
-            match (c.glob, c.icase) {
-                (false, false) => {}
-                (true, false) => spec.extend_from_slice(b":(glob)"),
-                (false, true) => spec.extend_from_slice(b":(icase)"),
-                (true, true) => spec.extend_from_slice(b":(glob,icase)"),
+            let mut args: Vec<String> = vec!["ls-files".into(), "-z".into(), "--".into()];
+            for (i, s) in c.specs.iter().enumerate() {
+                let magic = match (s.glob, s.icase) {
+                    (false, false) => "",
+                    (true, false) => ":(glob)",
+                    (false, true) => ":(icase)",
+                    (true, true) => ":(glob,icase)",
+                };
+                let Ok(p) = std::str::from_utf8(&s.pattern) else { vkit::machinery!("non-utf8 pattern") };
+                args.push(format!("{magic}d{i}/{p}"));
             }
-            spec.extend_from_slice(&c.pattern);
-            let spec = match std::str::from_utf8(&spec) {
-                Ok(s) => s.to_owned(),
-                Err(_) => vkit::machinery!("non-utf8 pattern"),
-            };
-            let flags = (if c.glob { WM_PATHNAME } else { 0 }) | (if c.icase { WM_CASEFOLD } else { 0 });
-            let n = c.pattern.iter().position(|b| is_glob_special(*b)).unwrap_or(c.pattern.len());
-            let mut any = false;
+            let out = vkit::git::try_git(fixture.path(), &args);
+            GIT_CALLS.fetch_add(1, Ordering::Relaxed);
+            if !out.ok {
+                vkit::machinery!("git {args:?} failed: {}", out.err_text());
+            }
+            let listed: std::collections::HashSet<&[u8]> = out.stdout.split(|b| *b == 0).filter(|s| !s.is_empty()).collect();
+            let mut any = 0u64;
             let mut validated = 0u64;
-            for (dir, names) in [(&f1, &names1), (&f2, &names2)] {
-                let out = vkit::git::try_git(dir.path(), &["ls-files", "-z", "--", spec.as_str()]);
-                GIT_CALLS.fetch_add(1, Ordering::Relaxed);
-                if !out.ok {
-                    vkit::machinery!("git ls-files -- {spec:?} failed: {}", out.err_text());
-                }
-                let listed: std::collections::HashSet<&[u8]> = out.stdout.split(|b| *b == 0).filter(|s| !s.is_empty()).collect();
+            let mut path = Vec::new();
+            for (i, s) in c.specs.iter().enumerate() {
+                let flags = (if s.glob { WM_PATHNAME } else { 0 }) | (if s.icase { WM_CASEFOLD } else { 0 });
+                // dir.c:git_fnmatch(): literal prefix (up to the first glob special) compared, the rest handed to wildmatch()
+                let n = s.pattern.iter().position(|b| is_glob_special(*b)).unwrap_or(s.pattern.len());
                 for name in names.iter() {
                     let prefix_ok = name.len() >= n
-                        && if c.icase { name[..n].eq_ignore_ascii_case(&c.pattern[..n]) } else { name[..n] == c.pattern[..n] };
-                    let model = prefix_ok && git_wildmatch(&c.pattern[n..], &name[n..], flags);
-                    let git = listed.contains(name);
+                        && if s.icase { name[..n].eq_ignore_ascii_case(&s.pattern[..n]) } else { name[..n] == s.pattern[..n] };
+                    let model = prefix_ok && git_wildmatch(&s.pattern[n..], &name[n..], flags);
+                    path.clear();
+                    path.extend_from_slice(format!("d{i}/").as_bytes());
+                    path.extend_from_slice(name);
+                    let git = listed.contains(path.as_slice());
                     if model != git {
                         vkit::machinery!(
-                            "transcription of dowild() disagrees with git: ls-files -- {spec:?} {} {:?}, transcription says {}",
+                            "transcription of dowild() disagrees with git: ls-files -- {:?} {} {:?}, transcription says {}",
+                            args[3 + i],
                             if git { "lists" } else { "does not list" },
-                            name.as_bstr(),
+                            path.as_bstr(),
                             model
                         );
                     }
                     validated += 1;
                     if git {
-                        any = true;
-                        VALIDATED_MATCH.fetch_add(1, Ordering::Relaxed);
+                        any += 1;
                     }
                 }
             }
             VALIDATED.fetch_add(validated, Ordering::Relaxed);
-            if any {
-                ok(format!("bind:{}", features(&c.pattern)))
+            VALIDATED_MATCH.fetch_add(any, Ordering::Relaxed);
+            BOUND_SPECS.fetch_add(c.specs.len() as u64, Ordering::Relaxed);
+            if any > 0 {
+                ok("bind:batch-agrees")
             } else {
                 ok_trivial("bind:lists-nothing")
             }
         },
     );
-    drop((f1, f2));
+    drop(fixture);
+    run.cov("wall_git_bind_s", t0.elapsed().as_secs_f64());
+
+    // ---- POSIX classes: every class x every byte, in gitoxide and (bound) in git ----
+    const CLASSES: [&str; 13] =
+        ["alnum", "alpha", "blank", "cntrl", "digit", "graph", "lower", "print", "punct", "space", "upper", "xdigit", "bogus"];
+    let class_fixture = vkit::scratch::Dir::new("c36cls");
+    let mut byte_names: Vec<Vec<u8>> = Vec::new();
+    {
+        vkit::git::init(class_fixture.path());
+        let mut input = Vec::new();
+        for d in 0..4 {
+            for b in 1..=255u8 {
+                if b == b'/' || b == b'.' {
+                    continue;
+                }
+                input.extend_from_slice(format!("100644 e69de29bb2d1d6434b8b29ae775ad8c2e48c5391 0\td{d}/").as_bytes());
+                input.push(b);
+                input.push(0);
+            }
+        }
+        vkit::git::git_in(class_fixture.path(), &["update-index", "-z", "--index-info"], &input);
+        let listed = vkit::git::git(class_fixture.path(), &["ls-files", "-z", "--", "d0"]);
+        for n in listed.split(|c| *c == 0).filter(|s| !s.is_empty()) {
+            byte_names.push(n[3..].to_vec());
+        }
+        if byte_names.len() < 250 {
+            vkit::machinery!("class fixture holds only {} single-byte names", byte_names.len());
+        }
+    }
+    run.sub_with(
+        "classes",
+        vkit::Opts::default().chunk(16),
+        |emit| {
+            for class in CLASSES {
+                for negation in 0..3u8 {
+                    emit(ClassCase { class: class.to_string(), negation });
+                }
+            }
+        },
+        |c: &ClassCase| -> Verdict {
+            let pat = format!("[{}[:{}:]]", ["", "!", "^"][c.negation as usize], c.class).into_bytes();
+            // gitoxide vs transcription, all byte values
+            let mut hits = 0;
+            for m in 0..4u8 {
+                for b in 1..=255u8 {
+                    let text = [b];
+                    let expect = git_wildmatch(&pat, &text, git_flags(m));
+                    let actual = gix_glob::wildmatch(pat.as_bstr(), text.as_bstr(), gix_mode(m));
+                    if expect != actual {
+                        return bad(
+                            "class",
+                            format!(
+                                "pattern {:?} text {:?} (byte 0x{b:02x}) mode {}: git's wildmatch says {}, gix_glob::wildmatch says {}",
+                                pat.as_bstr(),
+                                text.as_bstr(),
+                                mode_name(m),
+                                expect,
+                                actual
+                            ),
+                        );
+                    }
+                    hits += expect as u32;
+                }
+            }
+            TRIPLES.fetch_add(4 * 255, Ordering::Relaxed);
+            // transcription vs git
+            let p = String::from_utf8_lossy(&pat).into_owned();
+            let args = ["ls-files".to_string(), "-z".into(), "--".into(), format!("d0/{p}"), format!(":(glob)d1/{p}"), format!(":(icase)d2/{p}"), format!(":(glob,icase)d3/{p}")];
+            let out = vkit::git::try_git(class_fixture.path(), &args);
+            GIT_CALLS.fetch_add(1, Ordering::Relaxed);
+            if !out.ok {
+                vkit::machinery!("git {args:?} failed: {}", out.err_text());
+            }
+            let listed: std::collections::HashSet<&[u8]> = out.stdout.split(|b| *b == 0).filter(|s| !s.is_empty()).collect();
+            for m in 0..4u8 {
+                for name in &byte_names {
+                    let model = git_wildmatch(&pat, name, git_flags(m));
+                    let mut path = format!("d{m}/").into_bytes();
+                    path.extend_from_slice(name);
+                    if model != listed.contains(path.as_slice()) {
+                        vkit::machinery!(
+                            "transcription of dowild() disagrees with git: ls-files -- {:?} vs path {:?}: transcription says {model}",
+                            args[3 + m as usize],
+                            path.as_bstr()
+                        );
+                    }
+                }
+            }
+            VALIDATED.fetch_add(4 * byte_names.len() as u64, Ordering::Relaxed);
+            BOUND_SPECS.fetch_add(4, Ordering::Relaxed);
+            if hits == 0 {
+                ok_trivial("class:matches-nothing")
+            } else {
+                ok(format!("class:{}", c.class))
+            }
+        },
+    );
 
     // ---- gitoxide vs transcription ----
     let max_tokens = run.pick(4, 5);
+    let t1 = std::time::Instant::now();
     run.sub_with(
         "wildmatch",
         vkit::Opts::default().chunk(4096),
@@ -581,17 +709,32 @@ pub fn run(run: &'static Run) {
             let mut triples = 0u64;
             let mut matches = 0u64;
             let mut shortcut = 0u64;
+            let mut quirk_hits = 0u64;
+            let mut quirk_example: Option<String> = None;
             for m in 0..4u8 {
-                if m & 2 != 0 && quirk {
-                    continue;
-                }
+                // region of the open known finding `icase-unfolded-upper`: mismatches are collected, everything else still checked
+                let in_quirk_region = m & 2 != 0 && quirk;
                 let (mode, flags) = (gix_mode(m), git_flags(m));
                 let (mut yes, mut no) = (0u32, 0u32);
                 for text in texts.iter() {
                     let expect = git_wildmatch(pat, text, flags);
                     let actual = gix_glob::wildmatch(pat.as_bstr(), text.as_bstr(), mode);
                     triples += 1;
-                    if expect != actual {
+                    if in_quirk_region && expect == actual {
+                        // not comparable strictly, not counted as non-trivial evidence either
+                    } else if expect != actual && in_quirk_region {
+                        quirk_hits += 1;
+                        quirk_example.get_or_insert_with(|| {
+                            format!(
+                                "pattern {:?} text {:?} mode {}: git's wildmatch says {}, gix_glob::wildmatch says {}",
+                                pat.as_bstr(),
+                                text.as_bstr(),
+                                mode_name(m),
+                                expect,
+                                actual
+                            )
+                        });
+                    } else if expect != actual {
                         return bad(
                             "wildmatch",
                             format!(
@@ -614,7 +757,9 @@ pub fn run(run: &'static Run) {
                         let expect = if ptext == pat { expect } else { git_wildmatch(ptext, text, flags) };
                         let actual = parsed.matches(text.as_bstr(), mode);
                         shortcut += 1;
-                        if expect != actual {
+                        if expect != actual && in_quirk_region {
+                            quirk_hits += 1;
+                        } else if expect != actual {
                             return bad(
                                 "pattern-matches",
                                 format!(
@@ -640,26 +785,31 @@ pub fn run(run: &'static Run) {
             TRIPLES.fetch_add(triples, Ordering::Relaxed);
             MATCHES.fetch_add(matches, Ordering::Relaxed);
             SHORTCUT_TRIPLES.fetch_add(shortcut, Ordering::Relaxed);
+            if quirk_hits > 0 {
+                DOC_DEVIATIONS.fetch_add(quirk_hits, Ordering::Relaxed);
+                run.sample(serde_json::json!({"documented_deviation": quirk_example}));
+            }
             let special = pat.iter().any(|b| is_glob_special(*b));
             if !discriminates {
                 ok_trivial(if matches == 0 { "matches-nothing" } else { "matches-everything" })
             } else if !special {
                 ok_trivial("literal")
-            } else if quirk {
-                ok(format!("{}(icase-excluded)", features(pat)))
             } else {
                 ok(features(pat))
             }
         },
     );
 
+    run.cov("wall_wildmatch_s", t1.elapsed().as_secs_f64());
     if !run.is_replay() {
         run.cov("pattern_text_mode_triples", TRIPLES.load(Ordering::Relaxed));
         run.cov("triples_matching", MATCHES.load(Ordering::Relaxed));
+        run.cov("documented_deviation_triples", DOC_DEVIATIONS.load(Ordering::Relaxed));
         run.cov("pattern_matches_shortcut_triples", SHORTCUT_TRIPLES.load(Ordering::Relaxed));
         run.cov("transcription_answers_validated_against_git", VALIDATED.load(Ordering::Relaxed));
         run.cov("transcription_answers_validated_matching", VALIDATED_MATCH.load(Ordering::Relaxed));
         run.cov("oracle_calls_git", GIT_CALLS.load(Ordering::Relaxed));
+        run.cov("pattern_mode_pairs_bound_to_git", BOUND_SPECS.load(Ordering::Relaxed));
         run.require("transcription was validated against git", VALIDATED.load(Ordering::Relaxed) > 100_000);
         run.require("validated answers include matches", VALIDATED_MATCH.load(Ordering::Relaxed) > 1000);
         run.require("some triples match", MATCHES.load(Ordering::Relaxed) > 1000);
